@@ -170,6 +170,15 @@ void hx_ref_aes_keyexp(const uint8_t *key, int kl, uint8_t *enc, uint8_t *dec);
 void hx_ref_cmac_subkeys(const uint8_t *key, int kl, uint8_t k1[16], uint8_t k2[16]);
 void hx_ref_xcbc_keys(const uint8_t *key, uint8_t k1[16], uint8_t k2[16], uint8_t k3[16]);
 
+/* ---------- residue scanner (secscan.c) ---------- */
+void sec_reset(void);
+void sec_add(const void *ptr, size_t len, const char *what);
+int sec_scan(const void *buf, size_t n, const char **what, long *off);
+int sec_scan_gpr(const uint64_t *g, int n, const char **what);
+int sec_count(void);
+void sec_add_job(const hx_job *j);
+void sec_add_job_output(const hx_job *j);
+
 /* ---------- trace writer ---------- */
 extern FILE *hx_trace;
 void tr_begin(const char *ev);
